@@ -34,7 +34,7 @@ for prop in props:
         und = r[2] if len(r) > 2 else []
         if name == 'BASE':
             base = (rc, lines, und)
-        elif '-b' in name:
+        elif '-b' in name or name.split('-')[1].startswith(('r3b','r4b')):
             (fa if rc != 0 else silent).append((name, rc, lines, und))
         else:
             (caught if rc == 1 else missed).append((name, rc, lines, und))
